@@ -40,6 +40,9 @@ pub struct SysCfg {
     pub pad_ctx: bool,
     /// sometimes add a few dozen extra named outputs that alias states, inputs and shared nodes
     pub many_outputs: bool,
+    /// sometimes give inputs and states generated names (any characters that can stand in one btor2
+    /// token) instead of names from the fixed lists
+    pub token_names: bool,
 }
 
 impl Default for SysCfg {
@@ -62,6 +65,7 @@ impl Default for SysCfg {
             mc_bias: false,
             pad_ctx: true,
             many_outputs: false,
+            token_names: false,
         }
     }
 }
@@ -84,6 +88,10 @@ const INPUT_NAMES: [&str; 4] = ["in0", "en", "data", "sel"];
 fn bool_lit(ctx: &mut Context, t: &mut Tape) -> ExprRef {
     if t.flag() { ctx.get_true() } else { ctx.get_false() }
 }
+
+/// characters that cannot stand inside one btor2 token: blank and tab separate tokens, `;` starts a
+/// comment, line terminators end the line
+const TOKEN_FORBIDDEN: [char; 7] = [' ', '\t', ';', '\u{85}', '\u{2028}', '\u{b}', '\u{c}'];
 
 pub fn gen_system(t: &mut Tape, cfg: &SysCfg) -> SysCase {
     let mut ctx = Context::default();
@@ -182,7 +190,11 @@ pub fn gen_system(t: &mut Tape, cfg: &SysCfg) -> SysCase {
         let name = if cfg.anon_inputs && t.chance(110) {
             if t.flag() { format!("_input_{}", k) } else { format!("_state_{}", k) }
         } else {
-            INPUT_NAMES[k % INPUT_NAMES.len()].to_string()
+            if cfg.token_names && t.chance(64) {
+                crate::gen_expr::random_name(t, &TOKEN_FORBIDDEN, &format!("_i{}", k))
+            } else {
+                INPUT_NAMES[k % INPUT_NAMES.len()].to_string()
+            }
         };
         let sym = match tpe {
             Type::BV(w) => ctx.bv_symbol(&name, *w),
@@ -236,7 +248,13 @@ pub fn gen_system(t: &mut Tape, cfg: &SysCfg) -> SysCase {
         if k % 2 == 1 {
             pad(&mut ctx, t);
         }
-        let name = STATE_NAMES[k % STATE_NAMES.len()];
+        let generated;
+        let name: &str = if cfg.token_names && t.chance(64) {
+            generated = crate::gen_expr::random_name(t, &TOKEN_FORBIDDEN, &format!("_s{}", k));
+            &generated
+        } else {
+            STATE_NAMES[k % STATE_NAMES.len()]
+        };
         let sym = match tpe {
             Type::BV(w) => ctx.bv_symbol(name, *w),
             Type::Array(a) => ctx.array_symbol(name, a.index_width, a.data_width),
